@@ -130,19 +130,25 @@ let router_case (toks : string list) : string =
 
 let queue_case (toks : string list) : string =
   match toks with
-  | [ "K"; pushes; "S"; sched ] ->
+  | [ mode; pushes; "S"; sched ] when mode = "K" || mode = "J" ->
+    (* K: the consumer pops until null (the library's loops); J: it takes ONE entry per wake-up and goes back to its event
+       loop.  One grant of the harness' consumer runs from one yield point to the next: with an entry in hand the caller's
+       decision (pop again / stop) is part of the same grant. *)
     let pushes = List.map int_of_string (List.filter (fun x -> x <> "") (String.split_on_char ',' pushes)) in
     let progs = List.mapi (fun i n -> List.init n (fun j -> n_of_int ((i + 1) * 100 + j))) pushes in
     let np = List.length pushes in
-    let acts = ref [] in
+    let st = ref (M.init progs) in
+    let step a = st := M.run0 [ a ] !st in
+    let consumer () =
+      step M.Consumer;
+      (match (!st).M.cst with M.CGot -> step (if mode = "K" then M.Consumer else M.ConsumerStop) | _ -> ()) in
     String.iter (fun c -> let a = Char.code c - 48 in
-                  if a = 0 then acts := M.Consumer :: !acts
-                  else if a >= 1 && a <= np then acts := M.Producer (nat_of_int (a - 1)) :: !acts) sched;
-    let tail = ref [] in
-    List.iteri (fun i n -> for _ = 1 to 3 * n + 2 do tail := M.Producer (nat_of_int i) :: !tail done) pushes;
+                  if a = 0 then consumer ()
+                  else if a >= 1 && a <= np then step (M.Producer (nat_of_int (a - 1)))) sched;
+    List.iteri (fun i n -> for _ = 1 to 3 * n + 2 do step (M.Producer (nat_of_int i)) done) pushes;
     let total = List.fold_left ( + ) 0 pushes in
-    for _ = 1 to 3 * (total + 3) do tail := M.Consumer :: !tail done;
-    let st = M.run0 (List.rev !acts @ List.rev !tail) (M.init progs) in
+    for _ = 1 to 3 * (total + 3) do consumer () done;
+    let st = !st in
     let outs = List.map (fun v -> string_of_int (int_of_n v)) st.M.out in
     let left = List.length st.M.items - int_of_nat st.M.popped in
     Printf.sprintf "out=%s left=%d parked=%d pending=%d" (if outs = [] then "-" else String.concat "," outs) left
